@@ -16,7 +16,7 @@ import (
 // manager (C13) and client (C18) drivers.
 
 type fakeSession struct {
-	Msgs    []string `json:"msgs"`    // "u" update, "s" sync
+	Msgs    []string `json:"msgs"`    // "u" update, "s" sync, "e" empty response
 	Outcome string   `json:"outcome"` // "error" | "eof" | "silent" (block) | "long" (stay open)
 	DelayUs int      `json:"delay_us,omitempty"`
 }
@@ -87,6 +87,10 @@ func (f *fakeServer) Subscribe(stream pb.GNMI_SubscribeServer) error {
 		var resp *pb.SubscribeResponse
 		if m == "s" {
 			resp = &pb.SubscribeResponse{Response: &pb.SubscribeResponse_SyncResponse{SyncResponse: true}}
+		} else if m == "e" {
+			// a response with nothing in it (extension-only, or a kind this client does not know): a message all the same
+			f.onEvent(target, "empty", n, 0)
+			resp = &pb.SubscribeResponse{}
 		} else {
 			resp = &pb.SubscribeResponse{Response: &pb.SubscribeResponse_Update{Update: &pb.Notification{
 				Timestamp: int64(id), Prefix: &pb.Path{Target: target},
